@@ -141,8 +141,9 @@ func (p *fakeProxy) Contains(ctx context.Context, kind cache.EntryKind, hash str
 // ---------------------------------------------------------------- blobs
 
 type blob struct {
-	data []byte
-	hash string
+	data   []byte
+	hash   string
+	ondisk int64 // size of the compressed CAS file for this blob (zstd mode)
 }
 
 func mkBlob(r *Rng, size int64, compressible bool) blob {
@@ -156,7 +157,7 @@ func mkBlob(r *Rng, size int64, compressible bool) blob {
 		d = r.Bytes(int(size))
 	}
 	h := sha256.Sum256(d)
-	return blob{d, hex.EncodeToString(h[:])}
+	return blob{data: d, hash: hex.EncodeToString(h[:])}
 }
 
 func errClass(err error) string {
@@ -339,6 +340,17 @@ func driver(seed uint64, n int, outV, outJSON string, _ []string) {
 			}
 			blobs = append(blobs, mkBlob(r, sz, r.Chance(50)))
 		}
+		if zstdMode {
+			for i := range blobs {
+				tf, _ := os.CreateTemp("", "verif-obj-")
+				od, werr := casblob.WriteAndClose(zi, bytes.NewReader(blobs[i].data), tf, casblob.Zstandard, blobs[i].hash, int64(len(blobs[i].data)))
+				if werr != nil {
+					panic(werr)
+				}
+				blobs[i].ondisk = od
+				_ = os.Remove(tf.Name())
+			}
+		}
 		empty := mkBlob(r, 0, false)
 		byHash := map[string]int{}
 		for i, b := range blobs {
@@ -427,6 +439,9 @@ func driver(seed uint64, n int, outV, outJSON string, _ []string) {
 				err := dc.Put(ctx, kind, hash, size, &faultReader{data: data, err: stErr})
 				after := disk.VerifCacheSnapshot(dc)
 				var ondisk int64
+				if kind == cache.CAS && zstdMode && fault == "ok" {
+					ondisk = b.ondisk // needed by the model even when the commit is refused
+				}
 				rnd := ""
 				if err == nil {
 					out = "Some PutOk"
@@ -450,7 +465,7 @@ func driver(seed uint64, n int, outV, outJSON string, _ []string) {
 					if _, presentAfter := lookup(after, key); presentAfter && !presentBefore {
 						failed("C01: rejected upload made the claimed key present: " + key)
 					}
-					if fault == "ok" && size <= maxBlob && errClass(err) == "EInternal" {
+					if fault == "ok" && size <= maxBlob && errClass(err) == "EInternal" && size+8192 <= max {
 						failed("C01: well-formed upload within limits failed with an internal error: " + err.Error())
 					}
 					if hard > 0 && errClass(err) == "EInsufficient" {
